@@ -2250,6 +2250,12 @@ class Frame:
                 is_static = "staticmethod" in m.decorators
                 a2 = args if is_static else [recv] + args
                 return self.call_function(m, a2, kwargs, st, node, self_cls=ci)
+        if isinstance(recv, Poly):
+            # a method newer than the rules that exactly one class of the repository defines, called on a value whose
+            # class is not known (`other._identity_key()`): that method
+            cands = [fi_ for fi_ in self.I.prog.functions.values() if fi_.name == name and fi_.cls is not None and "@" not in fi_.qualname]
+            if len(cands) == 1 and self.I.prog.is_new_function(cands[0]) and "staticmethod" not in cands[0].decorators and "classmethod" not in cands[0].decorators and self.should_inline(cands[0]):
+                return self.call_function(cands[0], [recv] + args, kwargs, st, node, self_cls=cands[0].cls)
         if name in ("extend", "append") and len(args) == 1 and isinstance(recv, Poly) and isinstance(f.value, ast.Name) and f.value.id in st.env:
             # in-place growth of an opaque sequence held in a local: rebind the local to the concatenation
             self.opaque_mcall(name, recv, args, kwargs, st, node)
